@@ -256,7 +256,7 @@ func runSchedCase(c *ctx, tc schedCase) {
 		procs = append(procs, p.pid+":"+p.kind)
 	}
 	c.count("case:" + tc.store)
-	c.emit("sched", "store", tc.store, "procs", procs, "schedule", tc.schedule, "crash", tc.crash, "trace", sc.trace, "statuses", statuses,
+	c.emit("sched", "store", tc.store, "procs", procs, "schedule", tc.schedule, "crash", tc.crash, "trace", sc.fullTrace(), "statuses", statuses,
 		"exists", exists, "ttl", ttl, "at", hx(atName), "rt", hx(rtNameV), "presented", presented, "maxinflight", maxInflight, "pairs", pairs, "uptokens", upTokens,
 		"lockafter", lockAfter, "followauth", followAuth, "newauth", newAuth, "followstatus", fr.Status, "infostatus", si.Status, "maxlife", time.Hour)
 }
